@@ -278,6 +278,8 @@ class Analyzer:
         self.prog = prog
         self.entry_nottag = {}      # fn id -> {param path: frozenset(excluded variants)}   (holds at every call site)
         self.site_nottag = {}       # callee id -> list of per-call-site {arg index: excluded variants}
+        self.entry_bounds = {}      # closure id -> {param path: (lo, hi)}   numeric range of a by-value parameter at its only call site(s)
+        self.site_bounds = {}       # closure id -> list of per-call-site {param path: (lo, hi)}
         self.summaries = summaries if summaries is not None else {}
         self.axioms = axioms or []
         self.refcache = {}
@@ -767,6 +769,39 @@ class Analyzer:
             if S:
                 pv = ("v", D + ".@Some.0.0")
                 post.append(("optf", "Some", [(pv, ("#", S), -1), (Z, pv, 0)], S))
+        elif name_is("Option::<T>::map") and nargs == 2 and A[0]:
+            # Some(x) -> Some(f(x)): compose the Some-facts of the receiver with the closure's summary
+            e = df.operand_expr(fn, t["args"][1])
+            if isinstance(e, tuple) and e and e[0] == "closure" and e[1] in self.prog.fns and self.prog.fns[e[1]].arg_count == 2:
+                tmp = st.copy()
+                fs = tmp.optf.get((A[0], "Some"))
+                if fs:
+                    self.apply_facts(tmp, fs)
+                pv = ("v", A[0] + ".@Some.0")
+                pty = self.prog.fns[e[1]].local_ty(2)
+                if self.is_int_ty(pty):
+                    self.bound_type(tmp, pv, pty)
+                    if obligations is not None:
+                        self.site_bounds.setdefault(e[1], []).append({"L2": (tmp.lb(pv), tmp.ub(pv))})
+                summ = self.summaries.get(e[1])
+                if summ is not None and not tmp.dead:
+                    self.apply_summary(fn, tmp, t, "$ret", [A[1], A[0] + ".@Some.0"], [None, None], summ)
+                    rv_ = ("v", "$ret")
+                    facts = []
+                    for y in list(tmp.vars()) + [Z]:
+                        if y == rv_ or (y != Z and (State.under(y[1], D) or State.under(y[1], A[0]))):
+                            continue
+                        c1, c2 = tmp.get(rv_, y), tmp.get(y, rv_)
+                        if c1 is not None:
+                            facts.append((("v", D + ".@Some.0"), y, c1))
+                        if c2 is not None:
+                            facts.append((y, ("v", D + ".@Some.0"), c2))
+                    if facts:
+                        post.append(("optf", "Some", facts, A[0]))
+                if st.tag.get(A[0]) in ("Some", "None"):
+                    post.append(("settag", st.tag[A[0]]))
+        elif name_is("Option::<T>::ok_or_else", "Option::<T>::ok_or") and nargs == 2 and A[0]:
+            post.append(("some_to_ok", A[0]))
         elif name_is("ThreadPool::install") and nargs == 2 and A[1]:
             cl = None
             e = df.operand_expr(fn, t["args"][1])
@@ -787,6 +822,19 @@ class Analyzer:
                 pre["mm"] = self.minmax_bounds(st, p[1], p[2], p[3])
             elif p[0] == "try":
                 pre["try"] = st.copy()
+            elif p[0] == "some_to_ok":
+                R = p[1]
+                sp = R + ".@Some.0"
+                keep = []
+                for v in st.vars():
+                    if v[0] in ("v", "#") and State.under(v[1], sp):
+                        for y, c_ in st.out.get(v, {}).items():
+                            if y == Z or not State.under(y[1], R):
+                                keep.append((v, y, c_))
+                        for x_, c_ in st.inn.get(v, {}).items():
+                            if x_ == Z or not State.under(x_[1], R):
+                                keep.append((x_, v, c_))
+                pre["s2o"] = (keep, list(st.optf.get((R, "Some")) or []), st.tag.get(R))
         def canon_facts(fs):
             out_ = []
             for f in fs:
@@ -870,6 +918,30 @@ class Analyzer:
                         st2.optf[(D, "Continue")] = [(ren(f[0]), ren(f[1]), f[2]) for f in fs]
                     if st2.tag.get(R) == variant:
                         st2.tag[D] = "Continue"
+            elif kind == "some_to_ok":
+                R = p[1]
+                sp, dp = R + ".@Some.0", D + ".@Ok.0"
+                keep, fs, tg = pre["s2o"]
+
+                def ren2(tv, sp=sp, dp=dp):
+                    return (tv[0], dp + tv[1][len(sp):]) if tv != Z and tv[0] in ("v", "#") and State.under(tv[1], sp) else tv
+                if R != D:
+                    for (x_, y_, c_) in keep:
+                        st.add(ren2(x_), ren2(y_), c_)
+                nf = []
+                for f in fs:
+                    if f[0] == "NE":
+                        continue
+                    a_, b_ = ren2(f[0]), ren2(f[1])
+                    if any(tv != Z and tv[0] in ("v", "#") and State.under(tv[1], R) for tv in (a_, b_)):
+                        continue
+                    nf.append((a_, b_, f[2]))
+                if nf:
+                    st.optf[(D, "Ok")] = nf
+                if tg == "Some":
+                    st.tag[D] = "Ok"
+                elif tg == "None":
+                    st.tag[D] = "Err"
             elif kind == "summary":
                 self.apply_summary(fn, st, t, D, A, T, self.summaries[p[1]])
             elif kind == "settag":
@@ -969,9 +1041,15 @@ class Analyzer:
             elif rty.startswith("core::ops::range::Range<") and R:
                 ok1 = self.prove(st, ("v", R + ".end"), 0, L, 0, 0)
                 ok2 = self.prove(st, ("v", R + ".start"), 0, ("v", R + ".end"), 0, 0)
-                out.append(Obligation(fn, bb, t, "index", what, ok1 and ok2,
-                                      "start <= end <= len" if ok1 and ok2 else "end<=len: %s, start<=end: %s; %s" % (
-                                          ok1, ok2, self.explain(st, ("v", R + ".end"), L))))
+                o = Obligation(fn, bb, t, "index", what, ok1 and ok2,
+                               "start <= end <= len" if ok1 and ok2 else "end<=len: %s, start<=end: %s; %s" % (
+                                   ok1, ok2, self.explain(st, ("v", R + ".end"), L)))
+                # side facts for rules that ask more than panic-freedom of this slice
+                o.reached = not st.dead
+                o.start_const = None if st.dead else st.const_of(("v", R + ".start"))
+                o.nonempty = self.prove(st, ("v", R + ".start"), 0, ("v", R + ".end"), 0, -1)
+                o.relation = self.explain(st, ("v", R + ".start"), ("v", R + ".end"))
+                out.append(o)
             elif rty == "usize" and T[1]:
                 x, cx = T[1]
                 ok = self.prove(st, x, cx, L, 0, -1)
@@ -1225,6 +1303,11 @@ class Analyzer:
                 self.bound_len(st, "L%d" % i)
         for p, ex in self.entry_nottag.get(fn.id, {}).items():
             st.nottag[p] = frozenset(ex)
+        for p, (lo, hi) in self.entry_bounds.get(fn.id, {}).items():
+            if lo is not None:
+                st.add(Z, ("v", p), -lo)
+            if hi is not None:
+                st.add(("v", p), Z, hi)
         return st
 
     # ---- liveness (keeps the states small: facts about dead temporaries are dropped) ------------------------------
@@ -1325,7 +1408,9 @@ class Analyzer:
             if m and int(m.group(1)) not in live:
                 del st.optf[k]
 
-    def analyze(self, fn, want_obligations=True):
+    def analyze(self, fn, want_obligations=True, blocked_edges=()):
+        """blocked_edges: CFG edges (bb, succ) treated as never taken (path-restricted analysis)."""
+        blocked_edges = set(blocked_edges)
         nb = len(fn.blocks)
         live = self.liveness(fn)
         instate = [None] * nb
@@ -1346,7 +1431,7 @@ class Analyzer:
                 continue
             out = self.transfer_block(fn, st, bb)
             for succ in fn.succs(bb):
-                if fn.blocks[succ]["cleanup"]:
+                if fn.blocks[succ]["cleanup"] or (bb, succ) in blocked_edges:
                     continue
                 es = self.edge_state(fn, out, bb, succ)
                 if es.dead:
